@@ -8,6 +8,7 @@ PARS = {"default": dict(threads=4, type=5, pens=(-1, -1, -1)), "explicit": dict(
         "typed": dict(threads=2, type=-2, pens=(-1, -1, 3))}   # type -2: dna for nucleotides / protein for proteins
 
 
+NOCOMPARE = ("free", "readmissing", "writebad")     # calls whose own result is not compared (the failing ones must fail, that is all)
 SAME_SHAPES = [(3, 40), (6, 60), (3, 40), (5, 80), (4, 30), (8, 50)]
 
 
@@ -50,6 +51,10 @@ def call_lines(c, files, wd, tag):
         return ["kalign %s %d %d %g %g %g %s" % (files[c["i"]][1], P["threads"], P["type"] if P["type"] >= 0 else 5, P["pens"][0], P["pens"][1], P["pens"][2], tag)]
     if op == "free":
         return ["free %d" % c["h"], "note %s" % tag]
+    if op == "readmissing":
+        return ["read %d %s" % (c["h"], os.path.join(wd, "no_such_dir", "no_such_file.fa")), "note %s" % tag]
+    if op == "writebad":
+        return ["write %d fasta %s" % (c["h"], os.path.join(wd, "no_such_dir", "sub", "out.fa")), "note %s" % tag]
     raise ValueError(op)
 
 
@@ -133,6 +138,15 @@ def run(tier, seed, which="C16"):
                     dict(op="read", h=1, i=tgt), dict(op="run", h=1, p="explicit"), dict(op="write", h=1, f="fasta"), dict(op="free", h=1)]
             chains = [hist[:1], hist[:2], [hist[2]], hist[3:4], hist[3:5], hist[3:6], [hist[6]]]
             hists.append(dict(hist=hist, chains=chains, long=True))
+    # calls that fail (a file that does not exist, an output directory that does not exist) in front of ordinary work: a failed
+    # call must leave nothing behind that a later call can see (errno, half-built objects, static buffers)
+    for first in ("readmissing", "writebad"):
+        for inp in ("dna", "prot"):
+            pre = [dict(op="readmissing", h=1)] if first == "readmissing" else \
+                  [dict(op="read", h=1, i="prot"), dict(op="run", h=1, p="explicit"), dict(op="writebad", h=1), dict(op="free", h=1)]
+            body = [dict(op="read", h=0, i=inp), dict(op="run", h=0, p="default"), dict(op="write", h=0, f="fasta"), dict(op="free", h=0), dict(op="kalign", i=inp, p="default")]
+            prechains = [[c] for c in pre] if first == "readmissing" else [pre[:1], pre[:2], [pre[2]], [pre[3]]]
+            hists.append(dict(hist=pre + body, chains=prechains + [body[:1], body[:2], body[:3], [body[3]], [body[4]]], long=True))
     for inp in ("dna", "prot", "sparse", "same"):
         for fmt in ("fasta", "clu"):      # not msf: its header carries the file name and the time
             hist = [dict(op="read", h=0, i=inp), dict(op="run", h=0, p="default"), dict(op="write", h=0, f=fmt), dict(op="free", h=0),
@@ -144,7 +158,7 @@ def run(tier, seed, which="C16"):
     chainkeys = {}
     for H in hists:
         for k, ch in enumerate(H["chains"]):
-            if H["hist"][k]["op"] == "free":
+            if H["hist"][k]["op"] in NOCOMPARE:
                 continue
             chainkeys.setdefault(json.dumps(ch, sort_keys=True), ch)
     ckl = list(chainkeys.items())
@@ -194,7 +208,7 @@ def run(tier, seed, which="C16"):
         ev = kv.read_trace(tp)
         out = []
         for k, c in enumerate(H["hist"]):
-            if c["op"] == "free":
+            if c["op"] in NOCOMPARE:
                 continue
             key = json.dumps(H["chains"][k], sort_keys=True)
             tagr = "r" if (variant == "rel" and H.get("long")) else ""
